@@ -121,9 +121,23 @@ def check_case(ctx, case):
                 for st_ in PS.iter_steps(prog['steps']):
                     if st_['t'] in ('in', 'out'):
                         st_['reraise_framework'] = True
+                # an interrupt from outside (shutdown signal, Ctrl-C, watchdog) is not part of the code: a recording
+                # that claims to be complete must replay on the code WITHOUT it
+                external = ('op_interrupt', 'op_exit0', 'op_exit', 'op_ctrl_c')
+                replay_prog, replay_cls, replay_W = prog, fr.cls, fr.W
+                if any(f['kind'] in external for f in case['faults']):
+                    replay_prog, _ = FR.apply_faults(case['prog'], [f for f in case['faults'] if f['kind'] not in external])
+                    if case.get('params'):
+                        replay_prog['params'] = case['params']
+                    replay_prog['class_name'] = fr.cls.__name__ + 'Uninterrupted'
+                    for st_ in PS.iter_steps(replay_prog['steps']):
+                        if st_['t'] in ('in', 'out'):
+                            st_['reraise_framework'] = True
+                    replay_W = PS.World('REPLAY')
+                    replay_cls = PS.build_class(replay_prog, fr.rec, replay_W)
 
                 def playback_function(recording):
-                    out = PS.execute(fr.cls, prog)
+                    out = PS.execute(replay_cls, replay_prog)
                     if out[0] != 'ret':
                         raise out[2]
 
@@ -132,9 +146,11 @@ def check_case(ctx, case):
                 except RecordingKeyError as e:
                     raise Violation('saved, complete recording does not replay on unchanged code: %s (%s)' % (e, what),
                                     'saved-replays')
-                except V.Interrupt:
+                except (V.Interrupt, SystemExit, KeyboardInterrupt):
                     pass    # the replayed program ends by its interrupt again; how such a run is flagged is C18's matter
-                bodies = [j for j in fr.W.journal if j[0] == 'body']
+                bodies = [j for j in replay_W.journal if j[0] == 'body']
+                if replay_cls is not fr.cls:
+                    PS.forget_class(replay_cls)
                 if bodies:
                     raise Violation('replay of the saved recording executed wrapped bodies %r (%s)' % (bodies[:3], what),
                                     'saved-replays')
@@ -155,7 +171,7 @@ def nontrivial(prog, faults):
 
 def enumerate_case(ctx, base):
     prog = base['prog']
-    for fl in FR.placements(ctx, prog, base['pair_seed']):
+    for fl in FR.placements(ctx, prog, base['pair_seed'], extra=('exits',)):
         case = {'prog': prog, 'faults': fl, 'params': base['params'], 'cassette': base['cassette'], 'seed': base['seed'],
                 'prior': base.get('prior')}
         try:
